@@ -641,9 +641,16 @@ pub fn generate(seed: u64) -> Project {
         if let Some(d1) = d1_candidates.first().copied() {
             let d2 = "dx/";
             let originals: Vec<usize> = (0..modules.len()).filter(|i| modules[*i].dir() == d1).collect();
+            // an edge A -> B inside the folder, written relatively: A's twin stays byte-identical to A,
+            // B's twin differs, and B's twin is reachable only through A's twin
+            let edge: Option<(usize, usize)> = originals
+                .iter()
+                .flat_map(|a| modules[*a].imports.iter().filter(|i| !i.spec.starts_with('/') && i.target != *a && originals.contains(&i.target)).map(move |i| (*a, i.target)))
+                .next();
             let first_clone = modules.len();
             let clone_of = |i: usize| -> Option<usize> { originals.iter().position(|o| *o == i).map(|p| first_clone + p) };
             let mut clones: Vec<Module> = Vec::new();
+            let mut varied_flags: Vec<bool> = Vec::new();
             for (pos, &o) in originals.iter().enumerate() {
                 let mut c = modules[o].clone();
                 c.rel = format!("{}{}", d2, &modules[o].rel[d1.len()..]);
@@ -678,8 +685,13 @@ pub fn generate(seed: u64) -> Project {
                         }
                     }
                 }
-                // every other twin differs from its original in its values only (the last one always does)
-                if pos % 2 == 1 || pos + 1 == originals.len() {
+                // some twins differ from their originals in their values only
+                let varied = match edge {
+                    Some((a, b)) => o == b || (o != a && pos % 2 == 1),
+                    None => pos % 2 == 1 || pos + 1 == originals.len(),
+                };
+                varied_flags.push(varied);
+                if varied {
                     for g in c.globals.iter_mut() {
                         if let Some(l) = g.lit.clone() {
                             let nl = match &g.ty {
@@ -700,8 +712,11 @@ pub fn generate(seed: u64) -> Project {
                 clones.push(c);
             }
             modules.extend(clones);
-            // the main file reaches every twin
+            // the main file imports the byte-identical twins only; the others are reached through them (or not at all)
             for (pos, _) in originals.iter().enumerate() {
+                if varied_flags[pos] && edge.is_some() {
+                    continue;
+                }
                 let t = first_clone + pos;
                 let spec = modules[t].rel.strip_suffix(".sy").unwrap().to_string();
                 let spec = if modules[t].stem() == "exports" && r.chance(1, 2) { d2.to_string() } else { spec };
